@@ -559,17 +559,61 @@ theorem findInv_setInv_ne {d : Dealer} {v : Invk} {i : ReqId} (hne : i ≠ v.id)
     have : ¬ w.id = v.id := fun hx => hne (hw.symm.trans hx)
     simp [this]
 
+/-- output of a CALL whose callee has no room: the INVOCATION is treated as answered with ERROR network_failure —
+    the call `c` (invocation `i`, recorded timer `t`) is forgotten and the caller gets that ERROR -/
+def fullOut (S : DState) (c i : ReqId) (t : Option Nat) : DOut :=
+  { st := { S.cancelTimer t with d := S.d.forget c i }
+    sends := [callErr c [] ErrNetworkFailure [.str "<text>"] []] }
+
 /-- the first chunk of a call, accepted, callee has room: exactly the INVOCATION -/
 theorem firstChunk_ok {env : DEnv} {s : DState} {reg : Reg} {caller : SessKey} {req : Nat} {opts : Dict} {proc : String}
     (args : List WVal) (kw : Dict) {callee : SessKey} (reg' : Reg)
     (hr : callRefusal env s.d.allowDisclose reg caller callee opts = none) (hf : env.full callee = false) :
     firstChunk env s reg caller req opts proc args kw callee reg' =
-      { st := armTimer env (recordCall { s with d := s.d.setReg reg' } (newInvk s caller req callee opts) callee) caller req
-                (newInvk s caller req callee opts) (routerTimeout env reg callee opts)
+      { st := armTimer env (recordCall { s with d := s.d.setReg reg' } (newInvk s reg caller req callee opts) callee) caller req
+                (newInvk s reg caller req callee opts) (routerTimeout env reg callee opts)
         sends := [⟨callee, .invocation (genOf s.invGen callee + 1) reg.id (invDetails env reg caller callee opts proc) args kw⟩] } := by
   rw [firstChunk_eq, hr]
   simp only
   rw [dispatch_ok _ _ _ _ hf, newInvk_id]
+
+/-- the first chunk of a call, accepted, callee's queue full -/
+theorem firstChunk_full_eq {env : DEnv} {s : DState} (h : DealerInv s) {reg : Reg} (hm : reg ∈ s.d.regs) {caller : SessKey}
+    {req : Nat} {opts : Dict} {proc : String} (args : List WVal) (kw : Dict) {callee : SessKey} {reg' : Reg}
+    (hs : reg'.shape = reg.shape) (hc : (⟨caller, req⟩ : ReqId) ∉ s.d.calls)
+    (hr : callRefusal env s.d.allowDisclose reg caller callee opts = none) (hf : env.full callee = true) :
+    firstChunk env s reg caller req opts proc args kw callee reg' =
+      fullOut (recordCall { s with d := s.d.setReg reg' } (newInvk s reg caller req callee opts) callee) ⟨caller, req⟩
+        ⟨callee, genOf s.invGen callee + 1⟩ none := by
+  rw [firstChunk_eq, hr]
+  simp only
+  have h1 : DealerInv { s with d := s.d.setReg reg' } := h.setReg hm hs
+  have h2 : DealerInv (recordCall { s with d := s.d.setReg reg' } (newInvk s reg caller req callee opts) callee) :=
+    h1.recordCall (reg := reg) (caller := caller) (req := req) (callee := callee) (opts := opts) hc
+  have hmem : newInvk s reg caller req callee opts ∈
+      (recordCall { s with d := s.d.setReg reg' } (newInvk s reg caller req callee opts) callee).d.invs := by
+    show _ ∈ _ ++ [_]
+    exact List.mem_append_right _ (List.mem_singleton.2 rfl)
+  have hfi := (findInv_eq_some h2.call.invIds).2 ⟨hmem, rfl⟩
+  have hid : (newInvk s reg caller req callee opts).id = ⟨callee, (newInvk s reg caller req callee opts).id.req⟩ := by
+    rw [newInvk_id]
+  rw [hid] at hfi
+  rw [dispatch_full h2.call _ _ _ hf hfi]
+  have hreq : (newInvk s reg caller req callee opts).id.req = genOf s.invGen callee + 1 := by rw [newInvk_id]
+  unfold fullOut
+  rw [hreq]
+  rfl
+
+theorem fullOut_fresh_calls {s : DState} {reg : Reg} {reg' : Reg} {caller : SessKey} {req : Nat} {callee : SessKey}
+    {opts : Dict} (hc : (⟨caller, req⟩ : ReqId) ∉ s.d.calls) (i : ReqId) (t : Option Nat) :
+    (fullOut (recordCall { s with d := s.d.setReg reg' } (newInvk s reg caller req callee opts) callee) ⟨caller, req⟩
+      i t).st.d.calls = s.d.calls := by
+  show ((s.d.calls ++ [(newInvk s reg caller req callee opts).callId]).filter (· != (⟨caller, req⟩ : ReqId))) = s.d.calls
+  have hcid : (newInvk s reg caller req callee opts).callId = ⟨caller, req⟩ := rfl
+  rw [hcid, List.filter_append]
+  have : s.d.calls.filter (· != (⟨caller, req⟩ : ReqId)) = s.d.calls :=
+    List.filter_eq_self.2 (fun a ha => by simpa using fun he : a = ⟨caller, req⟩ => hc (he ▸ ha))
+  rw [this]; simp
 
 /-- the first chunk of a call, accepted, callee's queue full: ERROR network_failure, nothing recorded -/
 theorem firstChunk_full {env : DEnv} {s : DState} (h : DealerInv s) {reg : Reg} (hm : reg ∈ s.d.regs) {caller : SessKey}
@@ -579,46 +623,24 @@ theorem firstChunk_full {env : DEnv} {s : DState} (h : DealerInv s) {reg : Reg} 
     (firstChunk env s reg caller req opts proc args kw callee reg').sends =
         [callErr ⟨caller, req⟩ [] ErrNetworkFailure [.str "<text>"] []] ∧
       (firstChunk env s reg caller req opts proc args kw callee reg').st.d.calls = s.d.calls := by
-  rw [firstChunk_eq, hr]
-  simp only
-  have h1 : DealerInv { s with d := s.d.setReg reg' } := h.setReg hm hs
-  have h2 : DealerInv (recordCall { s with d := s.d.setReg reg' } (newInvk s caller req callee opts) callee) :=
-    h1.recordCall (caller := caller) (req := req) (callee := callee) (opts := opts) hc
-  have hmem : newInvk s caller req callee opts ∈
-      (recordCall { s with d := s.d.setReg reg' } (newInvk s caller req callee opts) callee).d.invs := by
-    show _ ∈ _ ++ [_]
-    exact List.mem_append_right _ (List.mem_singleton.2 rfl)
-  have hfi := (findInv_eq_some h2.call.invIds).2 ⟨hmem, rfl⟩
-  have hid : (newInvk s caller req callee opts).id = ⟨callee, (newInvk s caller req callee opts).id.req⟩ := by
-    rw [newInvk_id]
-  rw [hid] at hfi
-  rw [dispatch_full h2.call _ _ _ hf hfi]
-  refine ⟨rfl, ?_⟩
-  show ((s.d.calls ++ [(newInvk s caller req callee opts).callId]).filter (· != (newInvk s caller req callee opts).callId)) = s.d.calls
-  have hcid : (newInvk s caller req callee opts).callId = ⟨caller, req⟩ := rfl
-  rw [hcid, List.filter_append]
-  have : s.d.calls.filter (· != (⟨caller, req⟩ : ReqId)) = s.d.calls :=
-    List.filter_eq_self.2 (fun a ha => by simpa using fun he : a = ⟨caller, req⟩ => hc (he ▸ ha))
-  rw [this]; simp
+  rw [firstChunk_full_eq h hm args kw hs hc hr hf]
+  exact ⟨rfl, fullOut_fresh_calls hc _ _⟩
 
-
-
-theorem laterChunk_ok {env : DEnv} {s : DState} (reg : Reg) (caller : SessKey) (req : Nat) (opts : Dict)
+theorem laterChunk_ok {env : DEnv} {s : DState} (caller : SessKey) (req : Nat) (opts : Dict)
     (args : List WVal) (kw : Dict) (iid : ReqId) {v0 : Invk} (hf : env.full v0.callee = false) :
-    laterChunk env s reg caller req opts args kw iid v0 =
+    laterChunk env s caller req opts args kw iid v0 =
       { st := armTimer env { s with d := s.d.setInv { v0 with inProgress := opts.optFlag OptProgress } } caller req
-                { v0 with inProgress := opts.optFlag OptProgress } (routerTimeout env reg v0.callee v0.options)
-        sends := [⟨v0.callee, .invocation iid.req reg.id [(OptProgress, .bool (opts.optFlag OptProgress))] args kw⟩] } := by
+                { v0 with inProgress := opts.optFlag OptProgress } (routerTimeoutF env v0.fwdTimeout v0.callee v0.options)
+        sends := [⟨v0.callee, .invocation iid.req v0.regId [(OptProgress, .bool (opts.optFlag OptProgress))] args kw⟩] } := by
   unfold laterChunk
   simp only
   rw [dispatch_ok _ _ _ _ hf]
 
-theorem laterChunk_full {env : DEnv} {s : DState} (h : DealerInv s) (reg : Reg) {caller : SessKey} {req : Nat}
+theorem laterChunk_full_eq {env : DEnv} {s : DState} (h : DealerInv s) {caller : SessKey} {req : Nat}
     (opts : Dict) (args : List WVal) (kw : Dict) {iid : ReqId} {v0 : Invk}
     (hb : s.d.byCall? ⟨caller, req⟩ = some iid) (hfi : s.d.findInv iid = some v0) (hf : env.full v0.callee = true) :
-    (laterChunk env s reg caller req opts args kw iid v0).sends =
-        [callErr ⟨caller, req⟩ [] ErrNetworkFailure [.str "<text>"] []] ∧
-      (laterChunk env s reg caller req opts args kw iid v0).st.d.calls = s.d.calls.filter (· != ⟨caller, req⟩) := by
+    laterChunk env s caller req opts args kw iid v0 =
+      fullOut { s with d := s.d.setInv { v0 with inProgress := opts.optFlag OptProgress } } ⟨caller, req⟩ iid v0.timer := by
   obtain ⟨_, v, hf', hv, hvi, hvc, hve⟩ := h.call.byCall?_some hb
   rw [hfi] at hf'; cases hf'
   have h1 : DealerInv { s with d := s.d.setInv { v0 with inProgress := opts.optFlag OptProgress } } :=
@@ -631,94 +653,128 @@ theorem laterChunk_full {env : DEnv} {s : DState} (h : DealerInv s) (reg : Reg) 
   unfold laterChunk
   simp only
   rw [dispatch_full h1.call _ _ _ hf hfi']
-  simp only [forget_calls, setInv_calls]
-  rw [hvc]
+  have hid : (⟨v0.callee, iid.req⟩ : ReqId) = iid := by rw [hve]
+  unfold fullOut
+  simp only
+  rw [hid, hvc]
+
+theorem laterChunk_full {env : DEnv} {s : DState} (h : DealerInv s) {caller : SessKey} {req : Nat}
+    (opts : Dict) (args : List WVal) (kw : Dict) {iid : ReqId} {v0 : Invk}
+    (hb : s.d.byCall? ⟨caller, req⟩ = some iid) (hfi : s.d.findInv iid = some v0) (hf : env.full v0.callee = true) :
+    (laterChunk env s caller req opts args kw iid v0).sends =
+        [callErr ⟨caller, req⟩ [] ErrNetworkFailure [.str "<text>"] []] ∧
+      (laterChunk env s caller req opts args kw iid v0).st.d.calls = s.d.calls.filter (· != ⟨caller, req⟩) := by
+  rw [laterChunk_full_eq h opts args kw hb hfi hf]
   exact ⟨rfl, rfl⟩
 
-theorem noProc_replyOK {env : DEnv} {s : DState} (h : DealerInv s) (caller : SessKey) (req : Nat) (c : ReqId) :
-    ReplyOK s (noProc env s caller req) c (c = ⟨caller, req⟩) := by
-  unfold noProc
+/-- CASE ANALYSIS of `syncCall` under the invariant (the two panics and the empty-callee-list branch are excluded):
+    a later chunk of a pending call (aborted / sent / callee full), or a new call (no match / caller aborted /
+    refused / caller aborted for passthru / sent / callee full). -/
+theorem syncCall_cases {env : DEnv} {s : DState} (h : DealerInv s) (caller : SessKey) (req : Nat) (opts : Dict)
+    (proc : String) (args : List WVal) (kw : Dict) (rnd : Nat) {P : DOut → Prop}
+    (hAbort : (opts.optFlag OptProgress && !hasFeat env caller RoleCaller FeatureProgCallInvocations) = true →
+      P (progressAbort s caller))
+    (hLaterOk : ∀ (iid : ReqId) (v0 : Invk), s.d.byCall? ⟨caller, req⟩ = some iid → s.d.findInv iid = some v0 →
+      v0 ∈ s.d.invs → v0.id = iid → v0.callId = ⟨caller, req⟩ → v0.callee = iid.sess → env.full v0.callee = false →
+      P { st := armTimer env { s with d := s.d.setInv { v0 with inProgress := opts.optFlag OptProgress } } caller req
+                  { v0 with inProgress := opts.optFlag OptProgress } (routerTimeoutF env v0.fwdTimeout v0.callee v0.options)
+          sends := [⟨v0.callee, .invocation iid.req v0.regId [(OptProgress, .bool (opts.optFlag OptProgress))] args kw⟩] })
+    (hLaterFull : ∀ (iid : ReqId) (v0 : Invk), s.d.byCall? ⟨caller, req⟩ = some iid → s.d.findInv iid = some v0 →
+      v0 ∈ s.d.invs → v0.id = iid → v0.callId = ⟨caller, req⟩ → v0.callee = iid.sess → env.full v0.callee = true →
+      P (fullOut { s with d := s.d.setInv { v0 with inProgress := opts.optFlag OptProgress } } ⟨caller, req⟩ iid v0.timer))
+    (hNoMatch : s.d.byCall? ⟨caller, req⟩ = none → (⟨caller, req⟩ : ReqId) ∉ s.d.calls → s.d.matchProcedure proc = none →
+      P { st := s, sends := [callErr ⟨caller, req⟩ [] ErrNoSuchProcedure [] []] })
+    (hRefErr : ∀ (reg reg' : Reg) (callee : SessKey) (e : String), s.d.byCall? ⟨caller, req⟩ = none →
+      (⟨caller, req⟩ : ReqId) ∉ s.d.calls → s.d.matchProcedure proc = some reg → reg ∈ s.d.regs →
+      pickCallee reg rnd = some (callee, reg') → reg'.shape = reg.shape →
+      callRefusal env s.d.allowDisclose reg caller callee opts = some (.err e) →
+      P { st := { s with d := s.d.setReg reg' }, sends := [callErr ⟨caller, req⟩ [] e [] []] })
+    (hRefAbort : ∀ (reg reg' : Reg) (callee : SessKey), s.d.byCall? ⟨caller, req⟩ = none →
+      (⟨caller, req⟩ : ReqId) ∉ s.d.calls → s.d.matchProcedure proc = some reg → reg ∈ s.d.regs →
+      pickCallee reg rnd = some (callee, reg') → reg'.shape = reg.shape →
+      callRefusal env s.d.allowDisclose reg caller callee opts = some .abort →
+      P { st := { s with d := s.d.setReg reg' }, sends := [⟨caller, abortMsg "<text>"⟩], aborts := [caller] })
+    (hFirstOk : ∀ (reg reg' : Reg) (callee : SessKey), s.d.byCall? ⟨caller, req⟩ = none →
+      (⟨caller, req⟩ : ReqId) ∉ s.d.calls → s.d.matchProcedure proc = some reg → reg ∈ s.d.regs →
+      pickCallee reg rnd = some (callee, reg') → reg'.shape = reg.shape →
+      callRefusal env s.d.allowDisclose reg caller callee opts = none → env.full callee = false →
+      P { st := armTimer env (recordCall { s with d := s.d.setReg reg' } (newInvk s reg caller req callee opts) callee)
+                  caller req (newInvk s reg caller req callee opts) (routerTimeout env reg callee opts)
+          sends := [⟨callee, .invocation (genOf s.invGen callee + 1) reg.id (invDetails env reg caller callee opts proc)
+                      args kw⟩] })
+    (hFirstFull : ∀ (reg reg' : Reg) (callee : SessKey), s.d.byCall? ⟨caller, req⟩ = none →
+      (⟨caller, req⟩ : ReqId) ∉ s.d.calls → s.d.matchProcedure proc = some reg → reg ∈ s.d.regs →
+      pickCallee reg rnd = some (callee, reg') → reg'.shape = reg.shape →
+      callRefusal env s.d.allowDisclose reg caller callee opts = none → env.full callee = true →
+      P (fullOut (recordCall { s with d := s.d.setReg reg' } (newInvk s reg caller req callee opts) callee) ⟨caller, req⟩
+          ⟨callee, genOf s.invGen callee + 1⟩ none)) :
+    P (syncCall env s caller req opts proc args kw rnd) := by
+  rw [syncCall_eq]
   split
-  · exact syncCancel_replyOK h ..
+  · rename_i iid hb
+    obtain ⟨_, v, hf', hv, hvi, hvc, hve⟩ := h.call.byCall?_some hb
+    rw [hf']
+    simp only
+    split
+    · rename_i hp; exact hAbort hp
+    · cases hf : env.full v.callee with
+      | false => rw [laterChunk_ok caller req opts args kw iid hf]; exact hLaterOk iid v hb hf' hv hvi hvc hve hf
+      | true => rw [laterChunk_full_eq h opts args kw hb hf' hf]; exact hLaterFull iid v hb hf' hv hvi hvc hve hf
   · rename_i hb
     have hc0 : (⟨caller, req⟩ : ReqId) ∉ s.d.calls := by
       intro hc
       obtain ⟨i, _, hb', _⟩ := h.call.lookup hc
-      rw [hb'] at hb; simp at hb
-    rw [errMsg_call]
-    by_cases hc : (⟨caller, req⟩ : ReqId) = c
-    · subst hc
-      exact ReplyOK.of_final (x := callErr ⟨caller, req⟩ [] ErrNoSuchProcedure [] []) (by simp [repliesFor_cons])
-        (by simp) (Or.inr rfl) hc0
-    · exact ReplyOK.of_nil (by simp [repliesFor_cons, hc])
-
-theorem syncCall_replyOK {env : DEnv} {s : DState} (h : DealerInv s) (caller : SessKey) (req : Nat) (opts : Dict)
-    (proc : String) (args : List WVal) (kw : Dict) (rnd : Nat) (c : ReqId) :
-    ReplyOK s (syncCall env s caller req opts proc args kw rnd) c (c = ⟨caller, req⟩) := by
-  rw [syncCall_eq]
-  split
-  · exact noProc_replyOK h ..
-  · rename_i reg hm
-    have hmem := matchProcedure_mem hm
+      rw [hb] at hb'; cases hb'
     split
-    · rename_i he
-      exact absurd (by simpa using he) (h.reg.regs.callees reg hmem).1
-    · split
-      · exact ReplyOK.of_nil (by simp [repliesFor_cons])
+    · rename_i hm; exact hNoMatch hb hc0 hm
+    · rename_i reg hm
+      have hmem := matchProcedure_mem hm
+      split
+      · rename_i he
+        exact absurd (by simpa using he) (h.reg.regs.callees reg hmem).1
       · split
-        · rename_i hb
-          have hc0 : (⟨caller, req⟩ : ReqId) ∉ s.d.calls := by
-            intro hc
-            obtain ⟨i, _, hb', _⟩ := h.call.lookup hc
-            rw [hb] at hb'; cases hb'
-          split
-          · exact ReplyOK.of_nil rfl
+        · rename_i hp; exact hAbort hp
+        · split
+          · rename_i hp
+            obtain ⟨c, reg', hp'⟩ := pickCallee_isSome h.reg.regs hmem rnd
+            rw [hp] at hp'; cases hp'
           · rename_i callee reg' hp
             have hs := (pickCallee_shape hp).1
             cases hr : callRefusal env s.d.allowDisclose reg caller callee opts with
             | some r =>
               rw [firstChunk_eq, hr]
               cases r with
-              | err e =>
-                simp only
-                rw [errMsg_call]
-                by_cases hc : (⟨caller, req⟩ : ReqId) = c
-                · subst hc
-                  exact ReplyOK.of_final (x := callErr ⟨caller, req⟩ [] e [] []) (by simp [repliesFor_cons])
-                    (by simp) (Or.inr rfl) hc0
-                · exact ReplyOK.of_nil (by simp [repliesFor_cons, hc])
-              | abort => exact ReplyOK.of_nil (by simp [repliesFor_cons])
+              | err e => exact hRefErr reg reg' callee e hb hc0 hm hmem hp hs hr
+              | abort => exact hRefAbort reg reg' callee hb hc0 hm hmem hp hs hr
             | none =>
               cases hf : env.full callee with
-              | false =>
-                rw [firstChunk_ok args kw reg' hr hf]
-                exact ReplyOK.of_nil (by simp [repliesFor_cons])
+              | false => rw [firstChunk_ok args kw reg' hr hf]; exact hFirstOk reg reg' callee hb hc0 hm hmem hp hs hr hf
               | true =>
-                obtain ⟨h1, h2⟩ := firstChunk_full h hmem args kw (proc := proc) hs hc0 hr hf
-                by_cases hc : (⟨caller, req⟩ : ReqId) = c
-                · subst hc
-                  exact ReplyOK.of_final (x := callErr ⟨caller, req⟩ [] ErrNetworkFailure [.str "<text>"] [])
-                    (by rw [h1]; simp [repliesFor_cons]) (by simp) (Or.inr rfl) (by rw [h2]; exact hc0)
-                · exact ReplyOK.of_nil (by rw [h1]; simp [repliesFor_cons, hc])
-        · rename_i iid hb
-          split
-          · rename_i hf
-            obtain ⟨_, v, hf', _⟩ := h.call.byCall?_some hb
-            rw [hf] at hf'; cases hf'
-          · rename_i v0 hfi
-            cases hf : env.full v0.callee with
-            | false =>
-              rw [laterChunk_ok reg caller req opts args kw iid hf]
-              exact ReplyOK.of_nil (by simp [repliesFor_cons])
-            | true =>
-              obtain ⟨h1, h2⟩ := laterChunk_full h reg opts args kw hb hfi hf
-              by_cases hc : (⟨caller, req⟩ : ReqId) = c
-              · subst hc
-                exact ReplyOK.of_final (x := callErr ⟨caller, req⟩ [] ErrNetworkFailure [.str "<text>"] [])
-                  (by rw [h1]; simp [repliesFor_cons]) (by simp) (Or.inr rfl) (by rw [h2]; simp)
-              · exact ReplyOK.of_nil (by rw [h1]; simp [repliesFor_cons, hc])
+                rw [firstChunk_full_eq h hmem args kw hs hc0 hr hf]
+                exact hFirstFull reg reg' callee hb hc0 hm hmem hp hs hr hf
 
-
+theorem syncCall_replyOK {env : DEnv} {s : DState} (h : DealerInv s) (caller : SessKey) (req : Nat) (opts : Dict)
+    (proc : String) (args : List WVal) (kw : Dict) (rnd : Nat) (c : ReqId) :
+    ReplyOK s (syncCall env s caller req opts proc args kw rnd) c (c = ⟨caller, req⟩) := by
+  have hfin : ∀ (o : DOut) (d : Dict) (e : String) (a : List WVal), o.sends = [callErr ⟨caller, req⟩ d e a []] →
+      (⟨caller, req⟩ : ReqId) ∉ o.st.d.calls → ReplyOK s o c (c = ⟨caller, req⟩) := by
+    intro o d e a hs hgone
+    by_cases hc : (⟨caller, req⟩ : ReqId) = c
+    · subst hc
+      exact ReplyOK.of_final (x := callErr ⟨caller, req⟩ d e a []) (by rw [hs]; simp [repliesFor_cons]) (by simp)
+        (Or.inr rfl) hgone
+    · exact ReplyOK.of_nil (by rw [hs]; simp [repliesFor_cons, hc])
+  refine syncCall_cases (env := env) (P := fun o => ReplyOK s o c (c = ⟨caller, req⟩)) h caller req opts proc args kw rnd
+    ?_ ?_ ?_ ?_ ?_ ?_ ?_ ?_
+  · intro _; exact ReplyOK.of_nil (by simp [progressAbort, repliesFor_cons])
+  · intros; exact ReplyOK.of_nil (by simp [repliesFor_cons])
+  · intros; exact hfin _ _ _ _ rfl (by simp [fullOut])
+  · intro _ hc0 _; exact hfin _ _ _ _ rfl hc0
+  · intro reg reg' callee e _ hc0 _ _ _ _ _; exact hfin _ _ _ _ rfl hc0
+  · intros; exact ReplyOK.of_nil (by simp [repliesFor_cons])
+  · intros; exact ReplyOK.of_nil (by simp [repliesFor_cons])
+  · intro reg reg' callee _ hc0 _ _ _ _ _ _
+    exact hfin _ _ _ _ rfl (by rw [fullOut_fresh_calls hc0]; exact hc0)
 
 /-! ### session removal -/
 
@@ -1060,36 +1116,15 @@ theorem DStep.replyOK {s : DState} {o : DOut} (h : DealerInv s) (st : DStep s o)
 
 /-! ### which branch of `syncCall` is taken -/
 
-theorem noProc_fresh {env : DEnv} {s : DState} {caller : SessKey} {req : Nat}
-    (hb : s.d.byCall? ⟨caller, req⟩ = none) :
-    noProc env s caller req = { st := s, sends := [callErr ⟨caller, req⟩ [] ErrNoSuchProcedure [] []] } := by
-  unfold noProc
-  rw [hb]; rfl
-
-theorem noProc_pending {env : DEnv} {s : DState} {caller : SessKey} {req : Nat} {i : ReqId}
-    (hb : s.d.byCall? ⟨caller, req⟩ = some i) :
-    noProc env s caller req = syncCancel env s caller req CancelModeKillNoWait ErrNoSuchProcedure [] := by
-  unfold noProc
-  rw [hb]; rfl
-
-/-- CALL to a procedure that resolves to nothing, not a chunk of a pending call: refused -/
+/-- CALL to a procedure that resolves to nothing (not a chunk of a pending call): refused -/
 theorem syncCall_nomatch {env : DEnv} {s : DState} (caller : SessKey) (req : Nat) (opts : Dict) {proc : String}
     (args : List WVal) (kw : Dict) (rnd : Nat) (hm : s.d.matchProcedure proc = none)
     (hb : s.d.byCall? ⟨caller, req⟩ = none) :
     syncCall env s caller req opts proc args kw rnd =
       { st := s, sends := [callErr ⟨caller, req⟩ [] ErrNoSuchProcedure [] []] } := by
-  rw [syncCall_eq, hm]
-  exact noProc_fresh hb
-
-/-- a later chunk of a pending call to a procedure that resolves to nothing ends the call like a
-    killnowait CANCEL with reason no_such_procedure -/
-theorem syncCall_nomatch_pending {env : DEnv} {s : DState} (caller : SessKey) (req : Nat) (opts : Dict) {proc : String}
-    (args : List WVal) (kw : Dict) (rnd : Nat) (hm : s.d.matchProcedure proc = none) {i : ReqId}
-    (hb : s.d.byCall? ⟨caller, req⟩ = some i) :
-    syncCall env s caller req opts proc args kw rnd =
-      syncCancel env s caller req CancelModeKillNoWait ErrNoSuchProcedure [] := by
-  rw [syncCall_eq, hm]
-  exact noProc_pending hb
+  rw [syncCall_eq, hb]
+  simp only [hm]
+  rfl
 
 theorem syncCall_first {env : DEnv} {s : DState} {caller : SessKey} {req : Nat} {opts : Dict} {proc : String}
     (args : List WVal) (kw : Dict) {rnd : Nat} {reg reg' : Reg} {callee : SessKey}
@@ -1097,17 +1132,17 @@ theorem syncCall_first {env : DEnv} {s : DState} {caller : SessKey} {req : Nat} 
     (hprog : (opts.optFlag OptProgress && !hasFeat env caller RoleCaller FeatureProgCallInvocations) = false)
     (hb : s.d.byCall? ⟨caller, req⟩ = none) (hp : pickCallee reg rnd = some (callee, reg')) :
     syncCall env s caller req opts proc args kw rnd = firstChunk env s reg caller req opts proc args kw callee reg' := by
-  rw [syncCall_eq, hm]
-  simp only [hne, hprog, hb, hp, Bool.false_eq_true, if_false]
+  rw [syncCall_eq, hb]
+  simp only [hm, hne, hprog, hp, Bool.false_eq_true, if_false]
 
-theorem syncCall_later {env : DEnv} {s : DState} {caller : SessKey} {req : Nat} {opts : Dict} {proc : String}
-    (args : List WVal) (kw : Dict) (rnd : Nat) {reg : Reg} {iid : ReqId} {v0 : Invk}
-    (hm : s.d.matchProcedure proc = some reg) (hne : reg.callees.isEmpty = false)
+/-- a later chunk of a pending call is routed without looking at the chunk's URI -/
+theorem syncCall_later {env : DEnv} {s : DState} {caller : SessKey} {req : Nat} {opts : Dict} (proc : String)
+    (args : List WVal) (kw : Dict) (rnd : Nat) {iid : ReqId} {v0 : Invk}
     (hprog : (opts.optFlag OptProgress && !hasFeat env caller RoleCaller FeatureProgCallInvocations) = false)
     (hb : s.d.byCall? ⟨caller, req⟩ = some iid) (hf : s.d.findInv iid = some v0) :
-    syncCall env s caller req opts proc args kw rnd = laterChunk env s reg caller req opts args kw iid v0 := by
-  rw [syncCall_eq, hm]
-  simp only [hne, hprog, hb, hf, Bool.false_eq_true, if_false]
+    syncCall env s caller req opts proc args kw rnd = laterChunk env s caller req opts args kw iid v0 := by
+  rw [syncCall_eq, hb]
+  simp only [hf, hprog, Bool.false_eq_true, if_false]
 
 /-! ### `calls` grows only by the CALL being processed -/
 
@@ -1175,57 +1210,24 @@ theorem syncYield_calls_sub {env : DEnv} {s : DState} (h : DealerInv s) (callee 
 theorem syncCall_calls_sub {env : DEnv} {s : DState} (h : DealerInv s) (caller : SessKey) (req : Nat) (opts : Dict)
     (proc : String) (args : List WVal) (kw : Dict) (rnd : Nat) (c : ReqId)
     (hc : c ∈ (syncCall env s caller req opts proc args kw rnd).st.d.calls) : c ∈ s.d.calls ∨ c = ⟨caller, req⟩ := by
-  have hnp : c ∈ (noProc env s caller req).st.d.calls → c ∈ s.d.calls := by
-    unfold noProc
-    split
-    · exact syncCancel_calls_sub h _ _ _ _ _ c
-    · exact id
-  rw [syncCall_eq] at hc
-  split at hc
-  · exact Or.inl (hnp hc)
-  · rename_i reg hm
-    have hmem := matchProcedure_mem hm
-    split at hc
-    · exact Or.inl (hnp hc)
-    · split at hc
-      · exact Or.inl hc
-      · split at hc
-        · rename_i hb
-          have hc0 : (⟨caller, req⟩ : ReqId) ∉ s.d.calls := by
-            intro hc'
-            obtain ⟨i, _, hb', _⟩ := h.call.lookup hc'
-            rw [hb] at hb'; cases hb'
-          split at hc
-          · exact Or.inl hc
-          · rename_i callee reg' hp
-            have hs := (pickCallee_shape hp).1
-            cases hr : callRefusal env s.d.allowDisclose reg caller callee opts with
-            | some r =>
-              rw [firstChunk_eq, hr] at hc
-              cases r <;> exact Or.inl hc
-            | none =>
-              cases hf : env.full callee with
-              | false =>
-                rw [firstChunk_ok args kw reg' hr hf] at hc
-                simp only [armTimer_calls] at hc
-                rcases List.mem_append.1 hc with hc | hc
-                · exact Or.inl hc
-                · exact Or.inr (List.mem_singleton.1 hc)
-              | true =>
-                rw [(firstChunk_full h hmem args kw (proc := proc) hs hc0 hr hf).2] at hc
-                exact Or.inl hc
-        · rename_i iid hb
-          split at hc
-          · exact Or.inl hc
-          · rename_i v0 hfi
-            cases hf : env.full v0.callee with
-            | false =>
-              rw [laterChunk_ok reg caller req opts args kw iid hf] at hc
-              simp only [armTimer_calls] at hc
-              exact Or.inl hc
-            | true =>
-              rw [(laterChunk_full h reg opts args kw hb hfi hf).2] at hc
-              exact Or.inl (List.mem_filter.1 hc).1
+  revert hc
+  refine syncCall_cases (env := env) (P := fun o => c ∈ o.st.d.calls → c ∈ s.d.calls ∨ c = ⟨caller, req⟩) h caller req
+    opts proc args kw rnd ?_ ?_ ?_ ?_ ?_ ?_ ?_ ?_
+  · intro _ hc; exact Or.inl hc
+  · intro iid v0 _ _ _ _ _ _ _ hc
+    simp only [armTimer_calls] at hc; exact Or.inl hc
+  · intro iid v0 _ _ _ _ _ _ _ hc
+    exact Or.inl (List.mem_filter.1 hc).1
+  · intro _ _ _ hc; exact Or.inl hc
+  · intro reg reg' callee e _ _ _ _ _ _ _ hc; exact Or.inl hc
+  · intro reg reg' callee _ _ _ _ _ _ _ hc; exact Or.inl hc
+  · intro reg reg' callee _ _ _ _ _ _ _ _ hc
+    simp only [armTimer_calls] at hc
+    rcases List.mem_append.1 hc with hc | hc
+    · exact Or.inl hc
+    · exact Or.inr (List.mem_singleton.1 hc)
+  · intro reg reg' callee _ hc0 _ _ _ _ _ _ hc
+    rw [fullOut_fresh_calls hc0] at hc; exact Or.inl hc
 
 theorem syncRegister_calls (s : DState) (callee : SessKey) (req : Nat) (proc m invoke : String)
     (disclose fwd wampURI : Bool) : (syncRegister s callee req proc m invoke disclose fwd wampURI).st.d.calls = s.d.calls := by
